@@ -319,7 +319,7 @@ func (g *VCGen) ghostHeap(name string) string {
 	if gd == nil {
 		panic(specErr("unknown ghost variable " + name))
 	}
-	env := &SpecEnv{g: g, vars: map[string]SpecVal{}}
+	env := &SpecEnv{g: g, vars: map[string]SpecVal{}, pkg: g.eng.typesPkg(gd.pkg)}
 	s, _ := env.resolveSort(gd.sort)
 	return g.so.heap("GH!"+name, s)
 }
@@ -330,7 +330,9 @@ func (g *VCGen) ghostVal(st *State, name string) (SpecVal, bool) {
 		return SpecVal{}, false
 	}
 	h := g.ghostHeap(name)
-	return SpecVal{g.heapTerm(st, h), g.so.heaps[h], nil}, true
+	env := &SpecEnv{g: g, vars: map[string]SpecVal{}, pkg: g.eng.typesPkg(gd.pkg)}
+	_, gt := env.resolveSort(gd.sort)
+	return SpecVal{g.heapTerm(st, h), g.so.heaps[h], gt}, true
 }
 
 // havocAllBut: open-world callee. Every heap gets a fresh version (including heaps not mentioned so far: the
